@@ -134,8 +134,10 @@ inductive ARule where
   | import_ (href : Cps) (mq : Option (List Tok)) (name : Option Cps)
   | namespace_ (pfx uri : Cps)
   | charset (encoding : Cps)
-  /-- not interpreted: `@variables`, a margin rule at top level, a `@page` outside the modelled fragment of
-  `MarginRule` -/
+  /-- `@variables`: the variables in order, normalised name × value (opaque tokens) -/
+  | variables (vars : List (Cps × List Tok))
+  /-- not interpreted: a margin rule at top level, a `@page` / `@variables` outside the modelled fragments of
+  `MarginRule` / `CSSVariablesDeclaration` -/
   | other (k : Kind)
   deriving Repr
 
@@ -259,14 +261,42 @@ inductive SNs where
   | namespace_ (kw : Mask) (g1 : Gap) (pfx : Option (Cps × Gap)) (uri : SHref) (g2 : Gap)
   deriving Repr
 
-/-- `[@charset "enc";] lead (import-section) (namespace-section) (rules) EOF` — the order CSS prescribes
-(`cssstylesheet.py:182-246`: a rule out of order is dropped) -/
+/-- `name g1 : g2 value g3` inside `@variables` -/
+structure SVarDecl where
+  name : Cps
+  nameSp : Mask := []
+  g1 : Gap := []
+  g2 : Gap := []
+  value : List Tok
+  g3 : Gap := []
+  deriving Repr
+
+/-- `{ lead (decl ; gap)* [last] }` — comments inside the block of `@variables` are spelling (the DOM shows the
+variables as a mapping) -/
+structure SVarBlock where
+  lead : Gap := []
+  items : List (SVarDecl × Gap) := []
+  last : Option SVarDecl := none
+  deriving Repr
+
+/-- a statement of the `@variables` section (after the `@namespace` rules, before the first style / `@media` /
+`@page` / `@font-face` rule: `cssstylesheet.py:248-264`, `:818-842`) -/
+inductive SVar where
+  | comment (body : Cps)
+  | unknown (toks : List Tok)
+  /-- `@variables g0 { block }` -/
+  | variables (kw : Mask) (g0 : Gap) (block : SVarBlock)
+  deriving Repr
+
+/-- `[@charset "enc";] lead (import-section) (namespace-section) (variables-section) (rules) EOF` — the order
+CSS prescribes (`cssstylesheet.py:182-264`: a rule out of order is dropped) -/
 structure SSheet where
   /-- `@charset "enc";` must be the first thing in the sheet, written exactly so (quote style aside) -/
   charset : Option (Quote × Cps) := none
   lead : WGap := []
   imports : List (SImp × WGap) := []
   namespaces : List (SNs × WGap) := []
+  variables : List (SVar × WGap) := []
   rules : SRules := .nil
 
 /-! ### `erase`: the abstract sheet a spelled sheet denotes -/
@@ -335,9 +365,19 @@ def SNs.erase : SNs → ARule
   | .unknown t => .unknown t
   | .namespace_ _ _ pfx uri _ => .namespace_ ((pfx.map (·.1)).getD []) uri.value
 
+def SVarDecl.erase (d : SVarDecl) : Cps × List Tok := (d.name, strip d.value)
+
+def SVarBlock.erase (b : SVarBlock) : List (Cps × List Tok) :=
+  b.items.map (fun p => p.1.erase) ++ (b.last.map SVarDecl.erase).toList
+
+def SVar.erase : SVar → ARule
+  | .comment b => .comment b
+  | .unknown t => .unknown t
+  | .variables _ _ blk => .variables blk.erase
+
 def SSheet.erase (s : SSheet) : ASheet :=
   (s.charset.map (fun c => ARule.charset c.2)).toList ++ s.imports.map (·.1.erase) ++ s.namespaces.map (·.1.erase)
-    ++ s.rules.erase
+    ++ s.variables.map (·.1.erase) ++ s.rules.erase
 
 /-! ### `render`: the tokens of a spelled sheet -/
 
@@ -469,6 +509,30 @@ def renderNss : List (SNs × WGap) → List Tok
   | [] => []
   | (r, w) :: rest => r.toks ++ (WGap.toks w ++ renderNss rest)
 
+def SVarDecl.toks (d : SVarDecl) : List Tok :=
+  identTok (spell d.nameSp d.name) :: (Gap.toks d.g1 ++ colonTok :: (Gap.toks d.g2 ++ (d.value ++ Gap.toks d.g3)))
+
+def renderVarItems : List (SVarDecl × Gap) → List Tok
+  | [] => []
+  | (d, g) :: rest => d.toks ++ semiTok :: (Gap.toks g ++ renderVarItems rest)
+
+def renderLastVar : Option SVarDecl → List Tok
+  | none => []
+  | some d => d.toks
+
+/-- the tokens between `{` and `}` -/
+def SVarBlock.toks (b : SVarBlock) : List Tok := Gap.toks b.lead ++ (renderVarItems b.items ++ renderLastVar b.last)
+
+def SVar.toks : SVar → List Tok
+  | .comment b => [commentTok b]
+  | .unknown t => t
+  | .variables kw g0 blk =>
+    atTok .variablesSym kw "variables" :: (Gap.toks g0 ++ lbraceTok :: (blk.toks ++ [rbraceTok]))
+
+def renderVars : List (SVar × WGap) → List Tok
+  | [] => []
+  | (r, w) :: rest => r.toks ++ (WGap.toks w ++ renderVars rest)
+
 /-- `@charset ` (one token, with its space: `tokenize2.py:96-104`), the string, `;` -/
 def charsetToks (c : Quote × Cps) : List Tok :=
   [⟨.charsetSym, CssVerif.Proto.cps "@charset ", 0⟩, ⟨.string, quoteStr c.1 c.2, 0⟩, semiTok]
@@ -480,7 +544,8 @@ def charsetPart : Option (Quote × Cps) → List Tok
 /-- what the tokenizer (`fullsheet=True`) hands to `CSSStyleSheet._setCssText` -/
 def render (s : SSheet) : List Tok :=
   charsetPart s.charset ++
-  (WGap.toks s.lead ++ (renderImps s.imports ++ (renderNss s.namespaces ++ (s.rules.toks ++ [eofTok]))))
+  (WGap.toks s.lead ++ (renderImps s.imports ++ (renderNss s.namespaces ++ (renderVars s.variables ++
+    (s.rules.toks ++ [eofTok])))))
 
 /-! ## the DOM projection -/
 
@@ -507,6 +572,9 @@ def projItems (items : List Item) : List AItem := items.filterMap projItem
 
 def projMargin (m : Margin) : AMargin := ⟨m.name, projItems m.items⟩
 
+/-- a variable as the DOM shows it: the key of the mapping is the normalised name -/
+def projVar (v : Var) : Cps × List Tok := (normalize v.1.val, clean v.2)
+
 /-- what an opaque at-rule of `Struct` holds: its tokens are parsed again by the functions of
 `Model/AtRules.lean` (the same functions the oracle `withAtRules O` answers with) -/
 def projAt (O : Oracle) (M : List Cps) (k : Kind) (toks : List Tok) : ARule :=
@@ -522,6 +590,11 @@ def projAt (O : Oracle) (M : List Cps) (k : Kind) (toks : List Tok) : ARule :=
     | .parsed p => .page p.sel.name p.sel.pseudo (projItems p.items) (p.margins.map projMargin)
     | .stub => .page none none [] []
     | .unmodelled => .other .page
+  | .variables =>
+    match variablesRule O toks with
+    | .parsed vs => .variables (vs.map projVar)
+    | .stub => .variables []
+    | .unmodelled => .other .variables
   | k => .other k
 
 mutual
